@@ -23,7 +23,7 @@ rda! {
     Quaternion<X> => q, Rad<X> => rad, Deg<X> => deg,
 }
 
-fn approx_ops<T>(op: &str) -> Option<OpFn>
+pub fn approx_ops<T>(op: &str) -> Option<OpFn>
 where
     T: RdA + AbsDiffEq<Epsilon = X> + RelativeEq + UlpsEq + std::fmt::Debug + 'static,
 {
@@ -38,7 +38,7 @@ where
         _ => return None,
     })
 }
-const APPROX: &[&str] = &["abs_diff_eq", "relative_eq", "ulps_eq", "abs_diff_eq_d", "relative_eq_d", "ulps_eq_d"];
+pub const APPROX: &[&str] = &["abs_diff_eq", "relative_eq", "ulps_eq", "abs_diff_eq_d", "relative_eq_d", "ulps_eq_d"];
 const APPROX_TYPES: &[&str] = &["v1", "v2", "v3", "v4", "p1", "p2", "p3", "m2", "m3", "m4", "q", "rad", "deg"];
 
 /// `IndexMut<usize>` store and `Array::swap_elements` of vectors and points
